@@ -496,16 +496,23 @@ def ratSqrt? (q : Rat) : Option Rat :=
     if rn * rn == n && rd * rd == q.den then some ((rn : Rat) / (rd : Rat)) else none
 
 def meanDecisionExact (p : Nat) (emin : Int) (t : Option Rat) (xi : Rat) (w masked : List Rat) : Bool :=
-  let m := mean w
-  let mm := mean masked
-  let dev := masked.map (fun v => v - mm)
-  let sq := dev.map (fun v => v * v)
-  sumsAnyOrderExact p w && sumsAnyOrderExact p masked && isBin p emin m && isBin p emin mm &&
-    isBin p emin (xi - m) && dev.all (isBin p emin) && sumsAnyOrderExact p sq && isBin p emin (mean sq) &&
-    (match ratSqrt? (mean sq), t with
-     | some r, some t => isBin p emin r && isBin p emin t && isBin p emin (t * r)
-     | some r, none => isBin p emin r
-     | none, _ => false)
+  -- nested so that the compiled code stops at the first failing condition
+  if !(sumsAnyOrderExact p w && sumsAnyOrderExact p masked) then false
+  else
+    let m := mean w
+    let mm := mean masked
+    if !(isBin p emin m && isBin p emin mm && isBin p emin (xi - m)) then false
+    else
+      let dev := masked.map (fun v => v - mm)
+      if !(dev.all (isBin p emin)) then false
+      else
+        let sq := dev.map (fun v => v * v)
+        if !(sumsAnyOrderExact p sq && isBin p emin (mean sq)) then false
+        else
+          match ratSqrt? (mean sq), t with
+          | some r, some t => isBin p emin r && isBin p emin t && isBin p emin (t * r)
+          | some r, none => isBin p emin r
+          | none, _ => false
 
 /-! ## float level (2): the mean and median filters in binary64, in NumPy's order of evaluation
 
